@@ -2,9 +2,11 @@
 from pyvc.api import contract, Int, Bool, Str, Opt, Rec, mk
 from contracts._common import ViolationT
 
+SeverityT = ViolationT.fields["severity"]   # the Severity enum member (same SMT sort as Str; natively the real member)
+
 VB = "src/core/violation_builder.py::"
 ViolationInfoT = Rec("ViolationInfo", cls=VB + "ViolationInfo", pycls="src.core.violation_builder:ViolationInfo",
-                     rule_id=Str, file_path=Str, line=Int, message=Str, column=Int, severity=Str, suggestion=Opt(Str))
+                     rule_id=Str, file_path=Str, line=Int, message=Str, column=Int, severity=SeverityT, suggestion=Opt(Str))
 PROPS = ["C12", "C06", "C18", "C16", "C01", "C02", "C17"]
 
 
@@ -20,7 +22,7 @@ class BuildViolation:
 
 
 @contract(VB + "build_violation_from_params", props=PROPS,
-          types=dict(rule_id=Str, file_path=Str, line=Int, message=Str, column=Int, severity=Str, suggestion=Opt(Str)),
+          types=dict(rule_id=Str, file_path=Str, line=Int, message=Str, column=Int, severity=SeverityT, suggestion=Opt(Str)),
           returns=ViolationT)
 class BuildViolationFromParams:
     def value(rule_id, file_path, line, message, column, severity, suggestion):
@@ -28,7 +30,7 @@ class BuildViolationFromParams:
 
 
 @contract(VB + "BaseViolationBuilder.build_from_params", props=PROPS,
-          types=dict(rule_id=Str, file_path=Str, line=Int, message=Str, column=Int, severity=Str, suggestion=Opt(Str)),
+          types=dict(rule_id=Str, file_path=Str, line=Int, message=Str, column=Int, severity=SeverityT, suggestion=Opt(Str)),
           returns=ViolationT)
 class BuilderBuildFromParams:
     def value(rule_id, file_path, line, message, column, severity, suggestion):
